@@ -90,7 +90,7 @@ def scenario(ch, cfg):
     ndefs = 2 + ch.draw(4, "ndefs")
     pool = list(FN_DEFS)
     defs = [pool.pop(ch.draw(len(pool), "def")) for _ in range(ndefs)]
-    boot = [f"{n}::{body}" for n, body, _ in defs] + ["gv::[1 2 3]", 'gs::"text"', "g0::100", "useg::{x+g0}"]
+    boot = [f"{n}::{body}" for n, body, _ in defs] + ["gv::[1 2 3]", 'gs::"text"', "g0::100", "useg::{x+g0}", "nctr::0", "nil::{nctr::nctr+1;nctr*7}"]
     for line in boot:
         twin(line)
     for n, _, ar in defs:
@@ -254,8 +254,21 @@ def scenario(ch, cfg):
                 stats["probe_burst"] += 1
                 res = {}
 
+                bigreq = ch.draw(4, "bigreq") == 0
+                if bigreq:
+                    # two of the pipelined REQUESTS are larger than 64 KiB as well (a sender that yields inside a frame
+                    # would interleave them); the server adds 100 to every element
+                    stats["probe_big_concurrent_requests"] += 1
+
                 def one(j, lit):
                     try:
+                        if bigreq and j < 2:
+                            import numpy as np
+                            arr = np.arange(8400 + j)
+                            got = nc.call(ipc.KGRemoteFnCall(KGSym("useg"), [arr]))
+                            ok = isinstance(got, np.ndarray) and got.shape == arr.shape and bool((got == arr + 100).all())
+                            res[j] = ("ok", canon(twin(lit))) if ok else ("ok", ("wrong-big-result", str(getattr(got, "shape", None))))
+                            return
                         res[j] = ("ok", canon(nc.call(lit)))
                     except BaseException as e:   # noqa
                         if isinstance(e, SystemExit):
@@ -268,6 +281,11 @@ def scenario(ch, cfg):
                     if res.get(j) != want:
                         viol("C13:value-mismatch:burst", f"concurrent call {lit[:60]!r} gave {str(res.get(j))[:120]}, server-local {str(want)[:120]}")
                 log.append(f"burst {[l[:20] for l in lits]}")
+            elif k == 7 and ch.draw(3, "nilad") == 0:
+                # call form with zero arguments: f(,:name) calls the niladic function on the server (side effect included)
+                stats["probe_nilad_call"] += 1
+                both("fn-call", "f(,:nil)", lambda: twin("nil()"))
+                both("eval-string", 'f("nctr")', lambda: twin("nctr"))
             elif k == 7:    # undefined must still test as undefined after transport
                 src = ch.pick([':_f("1%0")', ":_f(:und,(,1))", ':_f("[1 2 3]?9")'], "undef")
                 twin_src = {':_f("1%0")': ":_1%0", ":_f(:und,(,1))": ":_und(1)", ':_f("[1 2 3]?9")': ":_[1 2 3]?9"}[src]
